@@ -125,7 +125,7 @@ def effective_access(eng, f, st):
     return kind, user
 
 
-def check_guarded_fields(ctx, rid, cls, only_fields=None, doc=None):
+def check_guarded_fields(ctx, rid, cls, only_fields=None, doc=None, only_functions=None, skip_atomic=False):
     """A3 over every method of class template `cls`.  Emits one obligation per
     field reference.  Returns number of obligations."""
     fb, eng = ctx.fb, ctx.eng
@@ -146,6 +146,8 @@ def check_guarded_fields(ctx, rid, cls, only_fields=None, doc=None):
     requires = {}      # private helper id -> list of (guard path, mode, site, what)
     for f, top in class_functions(fb, cls):
         if top.kind in ("ctor", "dtor"):
+            continue
+        if only_functions is not None and top.name not in only_functions and top.kind != "conv":
             continue
         la = locks_of(eng, fb, f)
         for st in field_refs(f, cls):
@@ -174,7 +176,7 @@ def check_guarded_fields(ctx, rid, cls, only_fields=None, doc=None):
                 n += 1
                 continue
             if kind == "atomic":
-                if "guard" not in ent:
+                if "guard" not in ent or skip_atomic:
                     continue
                 # atomic with a paired mutex: modifications need the mutex
                 if acc in READ_KINDS:
